@@ -10,6 +10,7 @@ import (
 	"context"
 	"encoding/base64"
 	"fmt"
+	"io"
 	"net/http"
 	"os"
 	"path/filepath"
@@ -402,6 +403,23 @@ func (ri *recvInst) Stop() { ri.cancel() }
 
 func (ri *recvInst) Do(method, path string, body []byte, hdr map[string]string) *hx.Resp {
 	return hx.DoHandler(ri.H, method, path, body, hdr, "")
+}
+
+// DoReader is Do with the body given as a reader.
+func (ri *recvInst) DoReader(method, path string, body io.Reader, hdr map[string]string) *hx.Resp {
+	return hx.DoHandlerReader(ri.H, method, path, body, hdr, "")
+}
+
+// gatedBody delivers nothing until its gate is closed, then the whole body: an upload whose request has
+// reached the handler while its bytes are still on their way.
+type gatedBody struct {
+	gate chan struct{}
+	rd   *bytes.Reader
+}
+
+func (g *gatedBody) Read(p []byte) (int, error) {
+	<-g.gate
+	return g.rd.Read(p)
 }
 
 // ---------------------------------------------------------------------------------------
